@@ -23,6 +23,7 @@ import Reamber.Lemmas.TimingInverse
 import Reamber.Lemmas.SMText
 import Reamber.Lemmas.SMPairInv
 import Reamber.Lemmas.SMWriteEvents
+import Reamber.Lemmas.SMWriteChart
 import Reamber.Lemmas.Snapper
 import Mathlib.Tactic.NormNum
 import Reamber.Generated.SMTables
@@ -530,22 +531,119 @@ theorem write_read_exact_partial (t0 : Rat) (cs : List BcSnap) (hwf : wfChanges 
   rw [slot_beat_exact (beatAt t0 cs t) col ch dmax hpos hd]
   exact written_time_exact t0 cs hwf hs h0 hM offsetSec bpms ho hb t ht
 
+/-- **`measuresSorted_spec`**: the measure numbers the writer's loop runs over are strictly ascending and are exactly
+the measures that hold an object (above −1 when no object has a negative measure). -/
+theorem measuresSorted_spec (S : List Slot) :
+    (measuresSorted S).Pairwise (fun a b => a < b) ∧
+    (∀ m, m ∈ measuresSorted S ↔ ∃ s ∈ S, s.measure = m) ∧
+    ((∀ s ∈ S, 0 ≤ s.measure) → AscAbove (-1) (measuresSorted S)) :=
+  SM.measuresSorted_spec S
+
+/-- **`writeOrder_events`**: the writer's nine concatenated lists, each object with its beat, are a permutation of
+the notes' events. -/
+theorem writeOrder_events (β : Rat → Rat) (notes : List Note) :
+    ((writeOrder notes).map (objEvent β)).Perm ((notes.map (noteOfW β)).flatMap evOf) :=
+  SM.writeOrder_events β notes
+
+/-- **The emitted rows are clean rows** (so `scanRows_renderRows` applies to the emitted note data). -/
+theorem written_rows_clean (keys : Nat) (hk : 0 < keys) (E : List SEv) (hE : EventsOK keys E) (ms : List Int)
+    (out : List (List Str)) (hasc : AscAbove (-1) ms) (hmem : ∀ m, m ∈ ms ↔ ∃ s ∈ E.map slotOfEv, s.measure = m)
+    (hw : writeLoop keys (E.map slotOfEv) (-1) ms = .ok out) :
+    ∀ rows ∈ out, ∀ p ∈ rows, CleanRow p :=
+  SM.written_rows_clean keys hk E hE ms out hasc hmem hw
+
+/-- **`write_read_exact_chart` — the main result for one chart.**  Let the chart's tempo list be the stored form of a
+tempo-change list `cs` in C10's domain with the 4-beat metronome, every object time on the snap grid, and the
+chart's notes — seen in beats through `beatAt t0 cs` — satisfy `EventsOK` (columns below the key count, no two events
+in one (column, beat), every denominator divides its measure's row count), with holds/rolls of positive length that
+do not overlap within a column.  Then the measures `SMMap.write` emits (`writeChartRows`), rendered as note data
+(`renderRows`: rows joined by line breaks, measures by "\n,\n") and read by the StepMania rules (`denoteChart`:
+row scanner, `4m + 4r/R`, latest-unclosed-head pairing), are well-bracketed and denote exactly the chart's notes:
+the same kinds, columns, beats and end beats, and — integrating over any written `#BPMS`/`#OFFSET` that denote `cs` and
+`t0` (`changesOf_written_measure_lines`) — the same millisecond positions and hold lengths, as multisets.
+The five header parameters are arbitrary here; the MSD layer of the whole file and the numeric header lines are the
+remaining `_partial` (see the end of this file). -/
+theorem write_read_exact_chart (t0 : Rat) (cs : List BcSnap)
+    (hwf : wfChanges cs = true) (hs : sortedSnaps cs = true) (h0 : firstAtZero cs = true)
+    (hgc : gridCompatible (grid defaultMaxDiv) cs = true) (hm : metronomeOk cs = true) (hM : ∀ c ∈ cs, c.met = 4)
+    (c : WChart) (keys : Nat) (hkeys : getKeys c.chartType = some keys) (hk0 : 0 < keys) (hne : c.notes ≠ [])
+    (hb : toTimingMap c.bpms = tmOf t0 cs)
+    (hts : ∀ t ∈ (writeOrder c.notes).map (·.1), OnGridAt (grid defaultMaxDiv) t0 cs t)
+    (hT : ∀ n ∈ c.notes, t0 ≤ n.time ∧ 0 ≤ n.length)
+    (hE : EventsOK keys ((writeOrder c.notes).map (objEvent (beatAt t0 cs))))
+    (hlen : ∀ n ∈ c.notes.map (noteOfW (beatAt t0 cs)), ∀ e, n.endBeat = some e → n.beat < e)
+    (hno : (c.notes.map (noteOfW (beatAt t0 cs))).Pairwise NoOverlap)
+    (out : List (List Str)) (hw : writeChartRows c = .ok out)
+    (p0 p1 p2 p3 p4 : Str) (offsetSec : Rat) (bpms : List (Rat × Rat))
+    (ho : -(1000 * offsetSec) = t0) (hbp : changesOf bpms = cs) :
+    (denoteChart [p0, p1, p2, p3, p4, renderRows out]).wellBracketed = true ∧
+    (denoteChart [p0, p1, p2, p3, p4, renderRows out]).notes.Perm (c.notes.map (noteOfW (beatAt t0 cs))) ∧
+    (timedNotes offsetSec bpms (denoteChart [p0, p1, p2, p3, p4, renderRows out])).Perm (c.notes.map timedOfW) := by
+  -- the writer's loop on the slots of the object events
+  have hbeats := written_beats_exact t0 cs hwf hs h0 hgc hm hM c hb hts
+  unfold writeChartRows at hw
+  simp only [hbeats, bind, Except.bind, hkeys] at hw
+  rw [show ((writeOrder c.notes).map (·.1)).map (beatAt t0 cs) = (writeOrder c.notes).map (fun o => beatAt t0 cs o.1) by
+    rw [List.map_map]; rfl, writer_slots] at hw
+  have hnn : ∀ s ∈ ((writeOrder c.notes).map (objEvent (beatAt t0 cs))).map slotOfEv, 0 ≤ s.measure := by
+    intro s hs'
+    obtain ⟨e, he, rfl⟩ := List.mem_map.mp hs'
+    exact slotOf_measure_nonneg _ _ _ (hE.beat_nonneg e he)
+  obtain ⟨_, hmem, hasc⟩ := measuresSorted_spec (((writeOrder c.notes).map (objEvent (beatAt t0 cs))).map slotOfEv)
+  have hasc' := hasc hnn
+  -- rows level
+  obtain ⟨hok, hop, hperm⟩ := write_read_chart keys (c.notes.map (noteOfW (beatAt t0 cs)))
+    ((writeOrder c.notes).map (objEvent (beatAt t0 cs))) (writeOrder_events _ _) hE _ out hasc' hmem hw hlen hno
+  -- the text scans back to the rows
+  have hclean := written_rows_clean keys hk0 _ hE _ out hasc' hmem hw
+  have houtne : out ≠ [] := by
+    intro h
+    subst h
+    have : (pairAll (events ([] : List (List Str)))).notes = [] := rfl
+    rw [this] at hperm
+    have := hperm.symm.eq_nil
+    simp at this
+    exact hne this
+  have hscan : scanRows (renderRows out) = out := scanRows_renderRows out houtne hclean
+  have hd : (denoteChart [p0, p1, p2, p3, p4, renderRows out]).notes = (pairAll (events out)).notes.reverse := by
+    simp [denoteChart, hscan]
+  have hwb : (denoteChart [p0, p1, p2, p3, p4, renderRows out]).wellBracketed = true := by
+    simp [denoteChart, hscan, hok, hop]
+  have hnotes : (denoteChart [p0, p1, p2, p3, p4, renderRows out]).notes.Perm (c.notes.map (noteOfW (beatAt t0 cs))) := by
+    rw [hd]; exact (List.reverse_perm _).trans hperm
+  refine ⟨hwb, hnotes, ?_⟩
+  -- beats → milliseconds
+  unfold timedNotes
+  refine (hnotes.map _).trans ?_
+  rw [List.map_map]
+  apply List.Perm.of_eq
+  apply List.map_congr_left
+  intro n hn
+  obtain ⟨hnt, hnl⟩ := hT n hn
+  have h1 : timeOfBeat offsetSec bpms (beatAt t0 cs n.time) = n.time := by
+    unfold timeOfBeat; rw [ho, hbp]; exact timeAt_snapOfBeat_beatAt t0 cs n.time hwf hs h0 hM hnt
+  have h2 : timeOfBeat offsetSec bpms (beatAt t0 cs (n.time + n.length)) = n.time + n.length := by
+    unfold timeOfBeat; rw [ho, hbp]
+    exact timeAt_snapOfBeat_beatAt t0 cs _ hwf hs h0 hM (by linarith)
+  simp only [Function.comp, noteOfW, timedOfW]
+  by_cases hk : n.kind = .hold ∨ n.kind = .roll
+  · have h3 : n.time + n.length - n.time = n.length := by ring
+    simp only [hk, if_true, h1, h2, h3]
+  · simp only [hk, if_false, h1]
+
 /-!
 what is still missing for the full `write_read_exact` for the single statement "denote (write ms) = ms":
 Proved chain: `written_beats_exact` (slotted beat = `beatAt t`) → `slot_beat_exact` (row denotes that beat) →
 `cells_no_collision` / `last_write_wins` (the symbol is in that cell) → `scanRows_renderRows` (the text scans back to the
 rows) → `changesOf_written_measure_lines` (the written `#BPMS` denote the tempo list) → `written_time_exact` (the
 StepMania time of that beat is `t`); `string_line_roundtrip`, `selectable_roundtrip` for the header.
-Main assembled result: `write_read_chart` (one chart, rows level: the emitted measures denote exactly the notes, in
-beats) together with `write_read_exact_partial` (beats → milliseconds for each object).
+Main assembled result: `write_read_exact_chart` (one chart: the emitted note data denotes exactly the chart's notes,
+in beats and in milliseconds), built on `write_read_chart` (rows level) and `write_read_exact_partial`.
 NOT proved (`write_read_exact` for the whole file stays `_partial`):
-* `measuresSorted_spec`: `measuresSorted S` is strictly ascending above −1 and contains exactly the measures of `S`
-  (the `hasc`/`hmem` hypotheses of `write_read_chart`; needs `List.eraseDups` on a sorted list);
-* `writeOrder_events`: the writer's nine concatenated lists `(time, column, char)`, with the beats of
-  `written_beats_exact`, are a permutation of the notes' events `N.flatMap evOf` (so `E` can be instantiated from a
-  `WChart`), and `symOf` of the `SMConst` characters (`symbols_tie`, C02);
-* the grid rows are `CleanRow`s, so that `scanRows_renderRows` applies to the emitted text, and the MSD layer of the
-  whole file (`msd (render file)` = the written values) for one and for several charts;
+* (proved since: `measuresSorted_spec`, `writeOrder_events`, `written_rows_clean`, and the one-chart assembly
+  `write_read_exact_chart`)
+* the MSD layer of the whole file (`msd (render file)` = the written values: 22 header values, then one `#NOTES` value
+  per chart whose sixth parameter is `renderRows out`), for one and for several charts — `msd_render_partial`;
 * the numeric header lines (`#OFFSET`, `#SAMPLESTART`, `#SAMPLELENGTH`, bpm values): they depend on Python's float
   `repr`; the assumption to be carried is `parseFloat (show q) = .ok q` for the renderer `show` (a parameter, as in C01).
 The check evaluates the whole composition on every case (S).
